@@ -355,6 +355,9 @@ func Run(r *rt.Run) error {
 	if err := runDelete(r, env, t); err != nil {
 		return err
 	}
+	if err := runBatches(r, env, t); err != nil {
+		return err
+	}
 	names := []string{}
 	for _, p := range catalogue {
 		names = append(names, p.name)
